@@ -227,7 +227,7 @@ func runC19(c *wk.Ctx) {
 		fmt.Fprintf(os.Stderr, "cannot build the code generator: %v\n%s\n", err, out)
 		os.Exit(4)
 	}
-	n := c.N(320, 12000)
+	n := c.N(320, 36000)
 	const runs = 6
 	c.Cases(n, func(idx int64, r *wk.Rand) {
 		objs := c19Gen(r)
